@@ -128,3 +128,5 @@ func cmdSeq(args []string) int {
 	fmt.Printf("{\"cases\":%d,\"lines\":%d}\n", len(cases), total)
 	return 0
 }
+
+func init() { commands["seq"] = cmdSeq }
